@@ -4,7 +4,7 @@ from hypothesis import strategies as st
 
 from .common import GRID
 
-vals = st.one_of(st.none(), st.integers(0, 9), st.sampled_from(["a", "b", "", False, 0.0, 0]))
+vals = st.one_of(st.none(), st.integers(0, 9), st.sampled_from(["a", "b", "", False, 0.0, 0, "@exc"]))
 delays = st.sampled_from(GRID)
 small = st.integers(0, 7)
 excs = st.tuples(st.sampled_from(["ValueError", "KeyError", "RuntimeError", "HErr", "HErr2", "HBase", "IndexError", "AttributeError",
@@ -93,6 +93,8 @@ def programs(weights, max_bodies=5, max_instrs=7, max_start=5, max_nev=4, pol=No
         "bodies": st.lists(st.lists(ins, min_size=min_instrs, max_size=max_instrs), min_size=min_bodies,
                            max_size=max_bodies),
         "start": st.lists(small, min_size=min_start, max_size=max_start),
+        # some of the shared events are shared Timeout objects (a common deadline) instead of plain events
+        "shared_timeouts": st.lists(st.one_of(st.none(), st.none(), st.tuples(dl, vals).map(list)), max_size=max_nev),
     })
 
 
